@@ -261,6 +261,9 @@ def decide_and_report(prop, tier, seed, mod, agg):
     if unknown_cases:
         rdir = os.path.join(HOME, "selftest_out" if selftest else "", "replays", prop)
         os.makedirs(rdir, exist_ok=True)
+        for old_w in os.listdir(rdir):      # witnesses of an earlier run of the same tier and seed are stale
+            if old_w.startswith("%s-seed%s-" % (tier, seed)):
+                os.unlink(os.path.join(rdir, old_w))
         for v, unk in unknown_cases[:50]:
             path = os.path.join(rdir, "%s-seed%s-%s-case%s.json" % (tier, seed, v["lane"], v["idx"]))
             with open(path, "w") as f:
